@@ -363,6 +363,10 @@ def hterm_str(t):
 def filter_strings(spec):
     if spec is None:
         return None
+    if spec.get("invalid") == "two_draws":
+        return ["draw == 1", "age > 0", "draw in [0,2]"]
+    if spec.get("invalid") == "bad_op":
+        return ["draw > 1"]
     strs = [hterm_str(t) for t in spec["terms"]]
     d = spec.get("draw")
     if d:
@@ -418,6 +422,8 @@ def gen_ops(rng, tier_max):
     if rng.random() < 0.5:
         # handles opened WITH filter terms (the observer always reads unfiltered): 1-2 filters, switched at re-opening
         filters = [gen_filter(rng) for _ in range(rng.randint(1, 2))]
+        if rng.random() < 0.25:          # terms the Artifact constructor refuses: the old handle stays in use
+            filters.append({"invalid": rng.choice(["two_draws", "bad_op"]), "terms": [], "draw": None})
         has_draw = any(f["draw"] for f in filters)
         ops = case["ops"]
         for o in ops:
@@ -434,7 +440,8 @@ def gen_ops(rng, tier_max):
         for o in extra:
             if o["op"] == "reopen":
                 o["f"] = rng.choice([0] + [i + 1 for i in range(len(filters))] * 2)
-        case["ops"] = [{"op": "reopen", "f": rng.randint(1, len(filters))}] + extra
+        valid_ids = [i + 1 for i, f in enumerate(filters) if not f.get("invalid")]
+        case["ops"] = [{"op": "reopen", "f": rng.choice(valid_ids)}] + extra
         if rng.random() < 0.7:
             # a filter made to BITE on a table of this very case, and the operations through which a filtered view could
             # leak into the file: repeated loads (cache), clear_cache, replace with good data, replace refused inside put
@@ -593,6 +600,14 @@ REPAIRED_CASES = [
              {"op": "clear"}, {"op": "load", "key": "pop.structure"}, {"op": "reopen", "f": 2}, {"op": "load", "key": "pop.structure"},
              {"op": "replace", "key": "pop.structure", "data": {"t": "badframe"}}, {"op": "clear"},
              {"op": "reopen", "f": 0}, {"op": "load", "key": "pop.structure"}], "obs_seed": 12},
+    # terms the constructor refuses: nothing happens, the old (filtered) handle goes on
+    {"filters": [{"terms": [["atom", "age", ">", 0]], "draw": None, "pos": 0}, {"invalid": "two_draws", "terms": [], "draw": None},
+                 {"invalid": "bad_op", "terms": [], "draw": None}],
+     "ops": [{"op": "reopen", "f": 1}, {"op": "write", "key": "pop.structure", "data": {"t": "frame", "names": ["age", "year"],
+                                                                                    "index": [[0, 2000], [5, 2000]], "cols": {"value": [1.0, 2.0]}}},
+             {"op": "load", "key": "pop.structure"}, {"op": "reopen", "f": 2}, {"op": "load", "key": "pop.structure"},
+             {"op": "reopen", "f": 3}, {"op": "load", "key": "pop.structure"}, {"op": "reopen", "f": 0}, {"op": "load", "key": "pop.structure"}],
+     "obs_seed": 13},
     # d4f70230: an empty group /t/n left behind must not block the JSON write of t.n
     {"ops": [{"op": "write", "key": "t.n.m", "data": {"t": "json", "v": [1]}}, {"op": "remove", "key": "t.n.m"},
              {"op": "write", "key": "t.n", "data": {"t": "json", "v": [2]}}, {"op": "load", "key": "t.n"}], "obs_seed": 6},
@@ -652,13 +667,15 @@ def overlap(a, b):
     return a.startswith(b + ".") or b.startswith(a + ".")
 
 
-def expected_reject(op, ref):
+def expected_reject(op, ref, invalid_filter=False):
     """the rejection reasons the property lists: duplicate write, removing / replacing / loading a missing key, no data,
     malformed key, value that cannot be stored; + the reserved key cannot be removed (7b352a55) and a key that is a
     dotted prefix / extension of a present key cannot be written (4bbd9e87)"""
     kind = op["op"]
     k = op.get("key")
-    if kind in ("clear", "reopen"):
+    if kind == "reopen":
+        return bool(invalid_filter)
+    if kind == "clear":
         return False
     parts = k.split(".")
     malformed = len(parts) not in (2, 3) or any(p == "" for p in parts)
@@ -735,14 +752,15 @@ def run_ops(case):
                 elif kind == "clear":
                     a.clear_cache()
                 elif kind == "reopen":
-                    cur_f = op.get("f", 0) if op.get("f", 0) < len(filters) else 0
-                    a = Artifact(path, filter_terms=filter_strings(filters[cur_f]))
+                    new_f = op.get("f", 0) if op.get("f", 0) < len(filters) else 0
+                    a = Artifact(path, filter_terms=filter_strings(filters[new_f]))     # raises for refused terms: `a` stays
+                    cur_f = new_f
             except Exception as e:  # noqa: BLE001 - the outcome class is the observation
                 err = e
             rejected = err is not None
             tags.add(f"{kind}:{'rej_' + type(err).__name__ if rejected else 'ok'}")
             # ---- the oracle's map ----
-            exp_rej = expected_reject(op, ref)
+            exp_rej = expected_reject(op, ref, kind == "reopen" and bool((filters[op.get("f", 0)] or {}).get("invalid")) if op.get("f", 0) < len(filters) else False)
             if exp_rej and not rejected:
                 fail(f"step {step_no}: {kind}({k!r}) has a listed rejection reason but was accepted")
             if rejected and not exp_rej:
@@ -816,7 +834,7 @@ def run_ops(case):
             elif kind == "replace":
                 o = f"Replace {ckey(parts_of, k)} {d_coq}"
             else:
-                o = "ClearCache" if kind == "clear" else f"(Reopen {cz(cur_f)})"
+                o = "ClearCache" if kind == "clear" else (f"(Reopen {cz(cur_f)})" if not rejected else "(Reopen (-1))")
             obs_coq.append("{| o_op := %s; o_rej := %s; o_loaded := %s; o_keys := %s; o_file := %s; o_keys2 := %s; o_loads2 := %s |}" % (
                 o, cbool(rejected), copt(loaded_id, cz), clist(ckey(parts_of, x) for x in keys1),
                 clist(ckey(parts_of, x) for x in filekeys), clist(ckey(parts_of, x) for x in keys2),
@@ -830,6 +848,8 @@ def run_ops(case):
     # the filters' effect on every table content that was ever stored, computed by the harness (apply_filter)
     vt = []
     for fi in range(1, len(filters)):
+        if filters[fi].get("invalid"):
+            continue
         for cid, frame in sorted(frames.items()):
             try:
                 j = content(canon_h(apply_filter(frame, filters[fi]), filters[fi]))
@@ -1017,14 +1037,64 @@ def corpus_filt():
     ]
 
 
+def shrink_data(d):
+    """smaller variants of a data spec: fewer rows, fewer columns, a plain JSON value"""
+    if d.get("t") in ("frame", "series") and len(d.get("index", [])) > 1:
+        h = len(d["index"]) // 2
+        for sl in (slice(0, h), slice(h, None)):
+            e = dict(d, index=d["index"][sl])
+            if d["t"] == "frame":
+                e["cols"] = {c: v[sl] for c, v in d["cols"].items()}
+            else:
+                e["values"] = d["values"][sl]
+            yield e
+    if d.get("t") == "frame" and len(d.get("cols", {})) > 1:
+        for c in d["cols"]:
+            yield dict(d, cols={k: v for k, v in d["cols"].items() if k != c})
+    if d.get("t") in ("json", "tuple", "intkeys") and d.get("v") not in (0, [0]):
+        yield {"t": "json", "v": 0}
+
+
+def shrink_ops(case):
+    """smaller variants of an operation history: drop one operation, drop the filters, simplify a filter, shrink a datum"""
+    ops = case["ops"]
+    for i in range(len(ops)):
+        yield dict(case, ops=ops[:i] + ops[i + 1:])
+    if case.get("filters"):
+        yield dict({k: v for k, v in case.items() if k != "filters"}, ops=[dict({k: v for k, v in o.items() if k != "f"}) for o in ops])
+        for fi, f in enumerate(case["filters"]):
+            for ti in range(len(f["terms"])):
+                g = dict(f, terms=f["terms"][:ti] + f["terms"][ti + 1:])
+                yield dict(case, filters=case["filters"][:fi] + [g] + case["filters"][fi + 1:])
+            if f.get("draw") and f["terms"]:
+                yield dict(case, filters=case["filters"][:fi] + [dict(f, draw=None)] + case["filters"][fi + 1:])
+    for i, o in enumerate(ops):
+        if "data" in o:
+            for d in shrink_data(o["data"]):
+                yield dict(case, ops=ops[:i] + [dict(o, data=d)] + ops[i + 1:])
+
+
+def shrink_filt(case):
+    for i in range(len(case["terms"])):
+        yield dict(case, terms=case["terms"][:i] + case["terms"][i + 1:])
+    for i in range(len(case["rows"])):
+        if len(case["rows"]) > 1:
+            yield dict(case, rows=case["rows"][:i] + case["rows"][i + 1:])
+    if case.get("draw"):
+        yield dict(case, draw=None)
+    if len(case.get("value_cols") or []) > 1:
+        for c in case["value_cols"]:
+            yield dict(case, value_cols=[x for x in case["value_cols"] if x != c])
+
+
 def streams(tier):
     return [
         Stream(name="ops", imports="From Viv Require Import Common Artifact.", check="check_ops",
                gen=gen_ops_quick if tier == "quick" else gen_ops_thorough, run=run_ops, n_quick=70, n_thorough=260,
-               corpus=corpus_ops,
+               corpus=corpus_ops, shrink=shrink_ops,
                doc="operation sequences on real HDF files, observed after every operation"),
         Stream(name="filt", imports="From Viv Require Import Common Artifact.", check="check_filt", gen=gen_filt,
-               run=run_filt, n_quick=60, n_thorough=240, corpus=corpus_filt,
+               run=run_filt, n_quick=60, n_thorough=240, corpus=corpus_filt, shrink=shrink_filt,
                doc="tables loaded through an artifact with filter terms"),
     ]
 
